@@ -658,6 +658,17 @@ func (c *C18Case) Run() (res stat.Result) {
 			return res
 		}
 		if !flaws.LoneSurr {
+			// a string whose content is itself a quoted literal (payload of a ,string field) carries the feature
+			// in its inner literal: the outer one only shows an escaped backslash
+			if c18InnerSurrogate.Match(c.Doc) {
+				res.NonTrivial = true
+				res.Classes = append(res.Classes, "feature:UseUnicodeErrors-inner-literal")
+				if ty.Kind() == reflect.Struct && ty.NumField() == 1 && ty.Field(0).Type.Kind() == reflect.String &&
+					strings.HasSuffix(ty.Field(0).Tag.Get("json"), ",string") && c18LoneInnerDoc.Match(c.Doc) && oe == nil && ne == nil {
+					return fail("lone surrogate escape in the payload of a ,string field accepted with UseUnicodeErrors on: %s", clipB(c.Doc))
+				}
+				return res
+			}
 			res.NonTrivial = flaws.HasEscape
 			return identical()
 		}
@@ -1070,3 +1081,9 @@ func unmarshalThenScribble(api sonic.API, doc []byte, dst interface{}) error {
 	}
 	return err
 }
+
+// c18InnerSurrogate: an escaped backslash followed by a surrogate escape (\\uD8xx..\\uDFxx inside a string literal).
+var c18InnerSurrogate = regexp.MustCompile(`\\\\u[dD][89a-fA-F][0-9a-fA-F]{2}`)
+
+// c18LoneInnerDoc: exactly {"<key>":"\"<text without backslashes> \\uDxxx <text without backslashes>\""}: one inner surrogate escape, hence a lone one.
+var c18LoneInnerDoc = regexp.MustCompile(`^\s*\{\s*"[a-zA-Z]*"\s*:\s*"\\"[^\\"]*\\\\u[dD][89a-fA-F][0-9a-fA-F]{2}[^\\"]*\\""\s*\}\s*$`)
